@@ -40,6 +40,7 @@ class Splitter:
         self.max_cases = max_cases
         self._sym: dict[Any, str] = {}
         self.n_cases = 0
+        self._known: list[tuple[tuple, bool]] = []
 
     # ------------------------------------------------------------ poly -> lin
     def _name(self, mono: Any) -> str:
@@ -112,6 +113,9 @@ class Splitter:
         cv = d.const_value()
         if cv is not None:
             return {"lt": cv > 0, "le": cv >= 0, "eq": cv == 0}[c[0]]
+        for c0, t0 in self._known:       # decided on this branch already
+            if c0 == c:
+                return t0
         pos = self.facts_of(c, True)
         neg = self.facts_of(c, False)
         # true iff every negative alternative is inconsistent
@@ -253,7 +257,12 @@ class Splitter:
             for alt in self.facts_of(u, truth):
                 nf = facts + alt
                 if consistent(nf):
-                    yield from self.cases(values, nf, trail + ((u, truth),))
+                    self._known.append((u, truth))
+                    try:
+                        yield from self.cases(values, nf,
+                                              trail + ((u, truth),))
+                    finally:
+                        self._known.pop()
 
     def equal(self, a: Any, b: Any, facts: list[Lin]) -> bool:
         if is_cond(a) or is_cond(b):
